@@ -25,24 +25,27 @@ MANIFEST = dict(
     text="proof (partial). No theorem can exhibit a Rust panic, stack overflow or hang of the real interpreter; the "
          "claim for arbitrary text rests on an exploration (grammar-generated programs, mutations of examples/ and "
          "modules/, extreme literals, operator runs, deep nesting, random Unicode) run through interpret + diagnostic "
-         "rendering under catch_unwind and a watchdog in child processes, in the checked (dev) profile. Machine-checked "
-         "(Coq) only for the modelled arithmetic cores (Ratio<i128> mul/add with lcm, DType::power/try_power, "
-         "multiply/try_multiply/canonicalize, UnitFactor::power, factor merging): the checked paths never panic for any "
-         "factors and exponents (C08_checked_paths_total); the unchecked operations are the checked ones with 'overflow' "
-         "turned into a panic, i.e. they panic exactly where the checked ones report an error and agree otherwise "
-         "(C08_unchecked_is_checked_plus_panic, C08_ratio_ops, C08_checked_mul_in_range); the factorial loop terminates "
-         "for every order >= 1 (C08_factorial_terminates); one kernel-computed witness per open arithmetic finding "
-         "(C08_power_overflow_refuted: 1e30*1e30, 2*2^126, 2^126+2^126; C08_lcm_overflow_refuted: lcm(2^100,3^70); "
-         "C08_factorial_truncation_refuted: 65536 `!` -> order 0; C08_comparison_nan_refuted: inf/inf = NaN on primitive "
-         "floats). Seven classes of crashing inputs are OPEN findings (known_findings.json), nine further defects found by "
-         "this exploration were fixed in numbat.",
+         "rendering under catch_unwind and a watchdog in child processes, in the checked (dev) profile (thorough tier: also a "
+         "release build), single inputs and sequences of inputs on one session. Machine-checked (Coq) only for the modelled "
+         "arithmetic cores (Ratio<i128> mul/add with lcm, DType::power/try_power, multiply/try_multiply/canonicalize, "
+         "UnitFactor::power, factor merging, the guarded run-time paths): the checked paths never panic for any factors and "
+         "exponents (C08_checked_paths_total); since the phase-4 repairs the run-time paths only run the unchecked operations "
+         "after the checked ones succeeded, and then they cannot panic either (C08_guarded_paths_total, for well-formed "
+         "exponents); the parser never hands a truncated factorial order to the VM (C08_factorial_order_exact); the unchecked "
+         "operations are the checked ones with 'overflow' turned into a panic (C08_unchecked_is_checked_plus_panic, "
+         "C08_ratio_ops, C08_checked_mul_in_range); the factorial loop terminates for every order >= 1 "
+         "(C08_factorial_terminates); kernel-computed witnesses of what the unchecked operations do "
+         "(C08_power_overflow_refuted, C08_lcm_overflow_refuted, C08_factorial_truncation_refuted, "
+         "C08_comparison_nan_refuted on primitive floats). Two classes of crashing inputs remain OPEN findings (NaN "
+         "comparison after an overflowing conversion; stack overflow on operator chains of more than ~5000 terms), "
+         "the other defects found by this exploration (18 findings) were fixed in numbat.",
     design_ref="DESIGN.md §6 C08, §7 #4-#7; design/misc.md",
     note="Trusted: Coq kernel; Overflow/Model.v as a description of num-rational 0.4.2 and math.rs; the exploration "
          "harness (harness/src/crash.rs). An exploration finding nothing is not a proof of absence.",
     technique="Coq proofs about the panicking arithmetic cores + crash/hang exploration under catch_unwind and a watchdog",
 )
 
-THEOREMS = ["C08_checked_paths_total", "C08_unchecked_is_checked_plus_panic", "C08_ratio_ops", "C08_checked_mul_in_range",
+THEOREMS = ["C08_checked_paths_total", "C08_guarded_paths_total", "C08_factorial_order_exact", "C08_unchecked_is_checked_plus_panic", "C08_ratio_ops", "C08_checked_mul_in_range",
             "C08_factorial_terminates", "C08_power_overflow_refuted", "C08_lcm_overflow_refuted",
             "C08_factorial_truncation_refuted", "C08_comparison_nan_refuted"]
 # C08_comparison_nan_refuted is computed on the kernel's primitive binary64 floats: Print Assumptions lists the
@@ -64,6 +67,16 @@ CASE_TIMEOUT_MS = 15000
 
 def hx(s):
     return s.encode("utf-8").hex()
+
+
+SEQ_SEP = "\n\u241e\n"          # separates the inputs of a session sequence inside one case text
+
+
+def case_line(case):
+    mode, src = case[0], case[1]
+    if mode == 3:
+        return "3;%s\n" % ",".join(hx(x) for x in src.split(SEQ_SEP))
+    return "%d;%s\n" % (mode, hx(src))
 
 
 CHILD_MEMORY_LIMIT = 6 * 2 ** 30
@@ -90,7 +103,7 @@ def run_crash(binary, cases, shards=None):
         pos = 0
         while pos < len(idxs):
             todo = idxs[pos:]
-            inp = "".join("%d;%s\n" % (cases[i][0], hx(cases[i][1])) for i in todo)
+            inp = "".join(case_line(cases[i]) for i in todo)
             try:
                 p = subprocess.run([binary, "crash"], input=inp.encode(), stdout=subprocess.PIPE, preexec_fn=_limit_child,
                                    stderr=subprocess.PIPE, timeout=CASE_TIMEOUT_MS / 1000 * 3 + 30 * len(todo) ** 0 + 600, env=env)
@@ -132,7 +145,7 @@ def run_single(binary, case):
     env = dict(common.ENV)
     env["NV_CASE_TIMEOUT_MS"] = str(CASE_TIMEOUT_MS)
     try:
-        p = subprocess.run([binary, "crash"], input=("%d;%s\n" % (case[0], hx(case[1]))).encode(), preexec_fn=_limit_child,
+        p = subprocess.run([binary, "crash"], input=case_line(case).encode(), preexec_fn=_limit_child,
                            stdout=subprocess.PIPE, stderr=subprocess.PIPE, timeout=CASE_TIMEOUT_MS / 1000 + 60, env=env)
     except subprocess.TimeoutExpired:
         return "H|driver"
@@ -174,6 +187,7 @@ SHAPES = {
     "power-or-root": lambda s: re.search(r"\^|\*\*|[⁰¹²³⁴⁵⁶⁷⁸⁹]|sqrt|cbrt|sqr", s) is not None,
     "bang-run-multiple-of-65536": lambda s: any(n >= 65536 and n % 65536 == 0 for n in bang_runs(s)),
     "nesting-at-least-1000": lambda s: max_nesting(s) >= 1000,
+    "operator-chain-at-least-5000": lambda s: len(re.findall(r"[-+*/×÷<>=&|]|\bper\b|\bto\b|->|→|\s[A-Za-zµ°]", s)) >= 5000,
     "count-recursion-with-non-finite-argument": lambda s: re.search(
         r"\b(range|rand_binom|_poisson|rand_poisson|rand_geom|linspace|take|drop|str_repeat|catalan|fibonacci|binom|"
         r"falling_factorial|factorial)\s*\([^()]*(\binf\b|NaN)", s) is not None,
@@ -467,6 +481,28 @@ def stdlib_call(rng, sig):
     return "%s(%s)" % (name, ", ".join(args))
 
 
+FAILING_INPUTS = ["1 m + 1 s", "1/0", "undefined_name_xyz", "let", "fn f(", "2 ^ (1 m)", "assert_eq(1, 2)", "error(\"boom\")", "unit", "1 +",
+                  "use does::not::exist", "struct { }", "len(1)", "head([])", "5 -> m", "let v0: Time = 1 m", "datetime(\"nonsense\")", "(-1)!"]
+
+
+def session_sequence(rng):
+    """several inputs for ONE session: definitions (with re-definitions of the same names), module imports, uses of
+    earlier names, and inputs that fail at every stage (parse, names, types, run time) in between"""
+    seq = []
+    for _ in range(rng.randrange(3, 9)):
+        r = rng.random()
+        if r < 0.3:
+            seq.append(rng.choice(FAILING_INPUTS))
+        elif r < 0.4:
+            seq.append("use " + rng.choice(["units::stoney", "units::hartree", "extra::astronomy", "math::distributions", "units::currencies",
+                                            "datetime::human", "extra::color", "chemistry::elements", "prelude"]))
+        elif r < 0.5:
+            seq.append("v%d + g%d(v%d) -> u%d" % tuple(rng.randrange(5) for _ in range(4)))
+        else:
+            seq.append(gen_program(rng))
+    return seq
+
+
 def corpus_files():
     fs = []
     for root in (os.path.join(common.REPO, "examples"), os.path.join(common.REPO, "numbat", "modules")):
@@ -541,11 +577,32 @@ def run(chk):
         cases.append((rng.choice([0, 0, 1]), format_program(rng), "format-spec"))
     for _ in range(200 if quick else 4000):
         cases.append((0, strftime_program(rng), "strftime"))
+    for _ in range(250 if quick else 5000):
+        cases.append((3, SEQ_SEP.join(session_sequence(rng)), "session-sequence"))
     sigs = stdlib_signatures()
     for _ in range(700 if quick else 12000):
         cases.append((0, stdlib_call(rng, rng.choice(sigs)), "stdlib-call"))
 
     outs = run_crash(binary, [(m, s) for m, s, _ in cases])
+
+    # thorough tier: the same corpus / extreme / grammar / sequence inputs once more on a RELEASE build of the harness
+    # (no overflow checks, no debug assertions: arithmetic wraps instead of panicking, so the failure mode there is a hang
+    # or an abort, not a panic)
+    release_note = None
+    if not quick:
+        rel_dir = os.path.join(common.HARNESS, "target-release")
+        rc, out = common.sh(["cargo", "build", "--release", "--offline", "--quiet", "--target-dir", rel_dir],
+                            cwd=common.HARNESS, timeout=3000)
+        rel_bin = os.path.join(rel_dir, "release", "nbverif")
+        if rc != 0 or not os.path.exists(rel_bin):
+            release_note = "release build of the harness failed: " + out[-300:]
+        else:
+            rel_cases = [(m, s, f + "@release") for m, s, f in cases if f in ("corpus", "extreme", "format-spec")] + \
+                        [(m, s, f + "@release") for m, s, f in cases if f in ("grammar", "session-sequence", "stdlib-call")][:6000]
+            rel_outs = run_crash(rel_bin, [(m, s) for m, s, _ in rel_cases])
+            cases += rel_cases
+            outs += rel_outs
+            release_note = "release profile: %d inputs" % len(rel_cases)
 
     fam = collections.Counter()
     outcome_hist = collections.Counter()
@@ -594,12 +651,15 @@ def run(chk):
         chk.violation({
             "kind": "interpreter %s on a text input" % {"P": "panics", "DP": "panics while rendering the diagnostic",
                                                          "hang": "hangs", "abort": "aborts"}[site_of(o)[0]],
-            "mode": {0: "session with prelude", 1: "fresh context without prelude", 2: "persistent session"}[m],
+            "mode": {0: "session with prelude", 1: "fresh context without prelude", 2: "persistent session",
+                     3: "sequence of inputs on one session (inputs separated by a line with U+241E)"}[m],
             "source": small, "source_hex": hx(small), "implementation": o2, "family": family,
             "original_length": len(s),
-            "replay": "printf '%d;%s\\n' | harness/target/debug/nbverif crash" % (m, hx(small)) if len(small) < 2000 else "see source_hex",
+            "replay": "printf '%s' | harness/target/debug/nbverif crash" % case_line((m, small)).replace("\n", "\\n") if len(small) < 2000 else "see source_hex",
         })
         reported += 1
+    if release_note:
+        chk.notes.append(release_note)
     if known_hits_summary := {k: v for k, v in hits.items()}:
         chk.notes.append("known findings hit: %s" % known_hits_summary)
     if not reported and not proved:
@@ -616,7 +676,8 @@ def run(chk):
                 "function (signatures read from numbat/modules) with edge-value arguments of the declared kinds + string interpolations "
                 "with format specifiers from the full grammar [[fill]align][sign][#][0][width][.precision][type] (every fill character, "
                 "sizes up to beyond u64::MAX, numeric/string/quantity/date values) + format_datetime with every strftime directive, "
-                "flag and absurd widths; each in a clone of a "
+                "flag and absurd widths + SEQUENCES of 3-8 inputs on one session (definitions, re-definitions, imports, uses, inputs failing "
+                "at every stage in between); each in a clone of a "
                 "prelude session or in a fresh context; distinct = distinct source texts (every text is run through the whole pipeline)",
         "exhaustive": False,
         "families": dict(fam), "outcomes": dict(outcome_hist),
@@ -666,7 +727,8 @@ def replay(path):
         print(json.dumps(r, indent=1, ensure_ascii=False))
         return 0
     binary, _ = common.build_harness()
-    mode = {"session with prelude": 0, "fresh context without prelude": 1, "persistent session": 2}.get(r.get("mode"), 0)
+    mode = 3 if str(r.get("mode", "")).startswith("sequence") else \
+        {"session with prelude": 0, "fresh context without prelude": 1, "persistent session": 2}.get(r.get("mode"), 0)
     o = run_single(binary, (mode, bytes.fromhex(r["source_hex"]).decode("utf-8")))
     print("implementation:", o)
     return 1 if is_failure(o) else 0
